@@ -22,11 +22,12 @@ const (
 	c1PubErrAfterAccept
 	c1Kinds
 	// only in random scripts (the enumerated cells keep their numbering)
-	c1PubErrCanceled = c1Kinds
-	c1KindsRandom    = c1Kinds + 1
+	c1PubErrCanceled    = c1Kinds
+	c1HandlerErrDeadCtx = c1Kinds + 1 // the handler fails and leaves a cancelled context in the message (deadline idiom: WithTimeout, SetContext, defer cancel)
+	c1KindsRandom       = c1Kinds + 2
 )
 
-var c1KindNames = [...]string{"handler-error", "handler-panic", "publisher-error", "publisher-panic", "publisher-error-after-accept", "publisher-error-context-canceled"}
+var c1KindNames = [...]string{"handler-error", "handler-panic", "publisher-error", "publisher-panic", "publisher-error-after-accept", "publisher-error-context-canceled", "handler-error-leaving-a-cancelled-context"}
 
 type c1Fault struct {
 	stage int
@@ -138,7 +139,7 @@ func c01Body(r *Run) {
 		}
 		s := stages[f.stage]
 		switch f.kind {
-		case c1HandlerErr, c1HandlerPanic:
+		case c1HandlerErr, c1HandlerPanic, c1HandlerErrDeadCtx:
 			s.hFault[f.k] = f.kind
 		case c1PubErr:
 			s.pub.FailAt[f.k] = PubErr
@@ -195,6 +196,11 @@ func c01Body(r *Run) {
 				r.Fault(c1KindNames[k])
 				if k == c1HandlerPanic {
 					panic("injected handler panic")
+				}
+				if k == c1HandlerErrDeadCtx {
+					ctx, cancel := context.WithTimeout(m.Context(), time.Millisecond)
+					m.SetContext(ctx)
+					cancel()
 				}
 				return nil, errC1
 			}
